@@ -192,6 +192,11 @@ func (p *C16) Gen(seed uint64, i int, tier string) *scen.Scenario {
 		}
 		sc.Setup = append(sc.Setup, h)
 	}
+	useBridge := r.Chance(1, 4)
+	if useBridge {
+		// a std log.Logger on the logger: its records take their instant from the clock inside WriteInternal
+		sc.Setup = append(sc.Setup, scen.Op{Op: "bridge_new", L: 1, R: 5, Lvl: 4})
+	}
 	n := r.Range(3, 10)
 	saved := 0
 	for k := 0; k < n; k++ {
@@ -266,6 +271,8 @@ func (p *C16) Gen(seed uint64, i int, tier string) *scen.Scenario {
 					sc.Setup = append(sc.Setup, scen.Op{Op: "write_thru", L: 1, Lvl: 4, T: ts2, Msg: "m" + t2, Tok: t2, Probe: true})
 				}
 			}
+		} else if useBridge && r.Chance(1, 2) {
+			sc.Setup = append(sc.Setup, scen.Op{Op: "bridge_print", L: 5, Kind: scen.Pick(r, []string{"", "println", "printf"}), Msg: "m" + t, Tok: t, Probe: true})
 		} else {
 			sc.Setup = append(sc.Setup, scen.Op{Op: "log", L: 1, Entry: scen.Pick(r, []string{"Info", "Warn", "InfoContext", "LogAttrs", "Infof", "Print"}), Lvl: 4, Msg: "m" + t, Tok: t, Probe: true})
 		}
@@ -290,7 +297,7 @@ func (p *C16) Gen(seed uint64, i int, tier string) *scen.Scenario {
 // WellFormed: every probe is preceded by a complete calibration made under the flags in force.
 func (p *C16) WellFormed(sc *scen.Scenario) bool {
 	have := 0
-	calLogger := false
+	calLogger, bridge := false, false
 	for i := range sc.Setup {
 		op := &sc.Setup[i]
 		switch {
@@ -316,8 +323,13 @@ func (p *C16) WellFormed(sc *scen.Scenario) bool {
 				return false
 			}
 			have++
+		case op.Op == "bridge_new":
+			if op.L != 1 || op.R != 5 || op.Lvl != 4 {
+				return false
+			}
+			bridge = true
 		case op.Probe:
-			if have != 3 {
+			if have != 3 || (op.Op == "bridge_print" && (!bridge || op.L != 5)) {
 				return false
 			}
 		}
@@ -433,7 +445,7 @@ func (p *C16) Check(sc *scen.Scenario, run *orch.Run, env *orch.Env) []orch.Viol
 			if op.L == 1 {
 				apply(op)
 			}
-		case "log", "write_thru", "handler_handle":
+		case "log", "write_thru", "handler_handle", "bridge_print":
 			if op.Op == "write_thru" && op.Kind == "cal" {
 				if len(o.Writes) != 1 {
 					out = append(out, orch.Violation{Rule: "C16.probe", Witness: "writes", Detail: fmt.Sprintf("calibration record %s produced %d writes", op.Tok, len(o.Writes))})
@@ -491,6 +503,9 @@ func (p *C16) Check(sc *scen.Scenario, run *orch.Run, env *orch.Env) []orch.Viol
 			}
 			var inst time.Time
 			entry := op.Entry
+			if op.Op == "bridge_print" {
+				entry = "log.Logger(bridge)." + map[string]string{"": "Print", "println": "Println", "printf": "Printf"}[op.Kind]
+			}
 			if op.Op == "write_thru" || op.Op == "handler_handle" {
 				entry = "WriteThru"
 				if op.Op == "handler_handle" {
@@ -573,6 +588,8 @@ func (p *C16) Classify(sc *scen.Scenario, run *orch.Run) (string, bool) {
 			fmt.Fprintf(&sb, "set%s%v%v;", op.Kind, op.B, op.S)
 		case "log":
 			sb.WriteString(op.Entry + ";")
+		case "bridge_print":
+			sb.WriteString("bridge" + op.Kind + ";")
 		case "write_thru", "handler_handle":
 			sb.WriteString(op.Op[:2] + op.T.Zone + ";")
 		}
